@@ -17,6 +17,7 @@ import OFV.Proofs.C19Phys
 import OFV.Proofs.C19Exchange
 import OFV.Proofs.C19OneNormId
 import OFV.Proofs.C19Exact0
+import OFV.Proofs.C19ThcPos
 import OFV.Proofs.C19Mono
 
 namespace OFV.C19
@@ -186,6 +187,17 @@ candidate; only the failure probabilities (irrational powers) stay outside the M
 theorem cost_estimator_select_spec (cands : List (Nat × Nat)) (feasible : List Bool) :
     selectOk cands feasible (Model.C19.selectBest cands feasible) = true :=
   OFV.Proofs.C19Ph.selectBest_ok cands feasible
+
+/-- `compute_cost` (THC) with an even number of spin orbitals, at least one THC factor (`M ≥ 1`) and `beta ≥ 2`: the
+per-step Toffoli cost is positive and independent of `lam`, `dE`, hence the total is monotone in `lam` and `1/dE` —
+`thc_total_monotone` without its side condition on the sign of the per-step cost. -/
+theorem thc_total_monotone_pos (n chi beta M br : Nat) (lam lam' dE dE' : Rat) (c c' : Costs) (hn : n % 2 = 0)
+    (hM : 1 ≤ M) (hb : 2 ≤ beta)
+    (h : thcCost n lam dE chi beta M br = some c) (h' : thcCost n lam' dE' chi beta M br = some c')
+    (hl : lam ≤ lam') (hd : dE' ≤ dE) : 0 < c.step ∧ c.step = c'.step ∧ c.total ≤ c'.total := by
+  have hp := OFV.Proofs.C19M.thc_step_pos n chi beta M br lam dE c hn hM hb h
+  obtain ⟨h1, h2⟩ := thc_total_monotone n chi beta M br lam lam' dE dE' c c' hn h h' hl hd
+  exact ⟨hp, h1, h2 (le_of_lt hp)⟩
 
 /-! ### `lambda_norm` and the Jordan-Wigner image -/
 
